@@ -16,7 +16,7 @@ func init() {
 	register(&propDef{
 		ID:  "C05",
 		Run: runC05,
-		Explain: "Decided: (a) protection discipline: every struct type of the repository that owns a sync.Mutex/RWMutex field or has a field accessed through sync/atomic is a shared type; each of its fields must be immutable after construction, a sync/channel value, accessed only through sync/atomic, or accessed only with the owner's mutex in the must-hold lock set (lock sets computed per body over the CFG, with deferred unlocks and helper entry sets); the same for package-level variables of packages that own a package-level mutex; a field accessed atomically anywhere is accessed atomically everywhere; local variables captured by go-closures must be single-assignment or sync/channel values; (b) in RunAggregationLoop every Sample and every periodic render holds outputMutex, the final render is unconditional, post-dominates the function, follows the send on the unbuffered outputDone channel whose only receiver is the ticker arm that returns; (c) every close of a channel is ordered after its senders: same-goroutine closes are deferred or followed by no send, cross-goroutine closes are dominated by a WaitGroup.Wait whose Add precedes each spawning go statement and whose Done is deferred in each spawned body; sender helpers are only called from goroutines covered by such a close; (d) pooled contexts handed to sub-expressions are re-initialised with the caller's context before use and returned on every exit; stage closures write no captured or package-level state; (e) matcher instances are created per worker goroutine. " +
+		Explain: "Decided: (a) protection discipline: every struct type of the repository that owns a sync.Mutex/RWMutex field or has a field accessed through sync/atomic is a shared type; each of its fields must be immutable after construction, a sync/channel value, accessed only through sync/atomic, or accessed only with the owner's mutex in the must-hold lock set (lock sets computed per body over the CFG, with deferred unlocks and helper entry sets); the same for package-level variables of packages that own a package-level mutex; a field accessed atomically anywhere is accessed atomically everywhere; local variables captured by go-closures must be single-assignment or sync/channel values; (b) in RunAggregationLoop every Sample and every periodic render holds outputMutex, the final render is unconditional, post-dominates the function, follows the send on the unbuffered outputDone channel whose only receiver is the ticker arm that returns; (c) every close of a channel is ordered after its senders: same-goroutine closes are deferred or followed by no send, cross-goroutine closes are dominated by a WaitGroup.Wait whose Add precedes each spawning go statement and whose Done is deferred in each spawned body; sender helpers are only called from goroutines covered by such a close; (d) pooled contexts handed to sub-expressions are re-initialised with the caller's context before use and returned on every exit; stage closures write no captured or package-level state; (e) matcher instances are created per worker goroutine. (f) a match is counted before it is published: the totals are advanced only inside the classifying function, which returns before the worker sends; CreateInstance implementations return fresh instances; a pooled context is returned to its pool at most once per path. " +
 			"NOT decided: absence of deadlock in general and termination of the pipeline (only the close/handshake structure), monotonicity of intermediate renders, races inside third-party code, races on objects reachable only through interfaces the call graph cannot resolve.",
 		Assume: []string{
 			"goroutines are only started by go statements in the repository (and fsnotify's internal goroutine)",
